@@ -391,18 +391,36 @@ func goAdnlSession(a []string) string {
 	}()
 	ctx, cancel := context.WithTimeout(context.Background(), sessionDeadline)
 	defer cancel()
-	conn, cerr := liteclient.NewConnection(ctx, srv.key.pub, srv.addr())
+	type connRes struct {
+		c   *liteclient.Connection
+		err error
+	}
+	connCh := make(chan connRes, 1)
+	go func() {
+		c, err := liteclient.NewConnection(ctx, srv.key.pub, srv.addr())
+		connCh <- connRes{c, err}
+	}()
 	ar := <-acc
 	if ar.err != nil {
-		if conn != nil {
-			conn.VerifRetire()
-		}
+		go func() {
+			if r := <-connCh; r.c != nil {
+				r.c.VerifRetire()
+			}
+		}()
 		return "FAIL handshake-rejected-by-server " + ar.err.Error()
 	}
 	sc := ar.sc
 	defer sc.close()
-	if cerr != nil {
-		return "FAIL handshake-client-error " + cerr.Error()
+	var conn *liteclient.Connection
+	select {
+	case r := <-connCh:
+		if r.err != nil {
+			return "FAIL handshake-client-error " + r.err.Error()
+		}
+		conn = r.c
+	case <-time.After(sessionDeadline):
+		sc.close() // unblocks the client's read
+		return "FAIL handshake-client-hangs"
 	}
 	defer conn.VerifRetire()
 
@@ -671,7 +689,13 @@ func goAdnlFaults(a []string) string {
 	if err := sc.writeRaw(reply); err != nil {
 		return "FAIL server-write-error " + err.Error()
 	}
-	d := <-dialed
+	var d dialRes
+	select {
+	case d = <-dialed:
+	case <-time.After(sessionDeadline):
+		sc.close() // unblocks the client's read
+		return "FAIL handshake-client-hangs"
+	}
 	if d.err != nil {
 		return "FAIL handshake-client-error " + d.err.Error()
 	}
@@ -867,9 +891,9 @@ func genC11(g *h.G) {
 	}
 	g.Emit("prim.aes256ctr", h.Hex(g.Bytes(32)), strings.Repeat("ff", 16), "0", h.Hex(g.Bytes(48)))
 
-	nStatic := g.Scale(400, 6000)
-	nSession := g.Scale(160, 4000)
-	nFault := g.Scale(200, 6000)
+	nStatic := g.Scale(800, 20000)
+	nSession := g.Scale(300, 10000)
+	nFault := g.Scale(300, 10000)
 	faultI := 0
 	rounds := nStatic
 	for i := 0; i < rounds; i++ {
